@@ -1214,21 +1214,25 @@ def Msg.notSettle : Msg → Prop
 
 instance (m : Msg) : Decidable m.notSettle := by cases m <;> unfold Msg.notSettle <;> infer_instance
 
-/-- emergency redemption of a stable-mint vault leaves its record behind (finding D29): the other modelled step that
-shifts ledger equations -/
-def Msg.notEsmStable : Msg → Prop
+/-- the emergency-shutdown steps that stay inside the invariant. Two do not: the redemption of a stable-mint vault leaves its
+record behind (`esmStable`, finding D29: ledger equations shift, `esmStable_inv`), and the wind-down of a first-generation
+auction that collected less than the principal re-creates a vault for the owner whose principal may lie below the debt
+floor (`esmReturn1`: keeps every ledger equation, `esmReturn1_inv`, under an explicit floor premise) -/
+def Msg.esmRegular : Msg → Prop
   | .esmStable _ => False
+  | .esmReturn1 .. => False
   | _ => True
 
-instance (m : Msg) : Decidable m.notEsmStable := by cases m <;> unfold Msg.notEsmStable <;> infer_instance
+instance (m : Msg) : Decidable m.esmRegular := by cases m <;> unfold Msg.esmRegular <;> infer_instance
 
 /-- **Every message (other than auction settlement) preserves the ledger invariant.** -/
 theorem step_inv (cfg : Nat → Option Product) (G : Gaps) (hc : CfgOk cfg) (s s' : State) (e : Env) (m : Msg)
-    (hm : m.userOk) (hns : m.notSettle) (hne : m.notEsmStable) (hinv : InvG cfg G s) (h : step cfg s e m = some s') : InvG cfg G s' := by
+    (hm : m.userOk) (hns : m.notSettle) (hne : m.esmRegular) (hinv : InvG cfg G s) (h : step cfg s e m = some s') : InvG cfg G s' := by
   unfold step at h
   cases m with
   | settle v => exact absurd hns (by simp [Msg.notSettle])
-  | esmStable v => exact absurd hne (by simp [Msg.notEsmStable])
+  | esmStable v => exact absurd hne (by simp [Msg.esmRegular])
+  | esmReturn1 v o c i => exact absurd hne (by simp [Msg.esmRegular])
   | esmCollector a d x => exact esmCollector_inv cfg G s s' a d x hinv h
   | esmBurn f a d x => exact esmBurn_inv cfg G s s' f a d x hinv h
   | esmVault v =>
@@ -1478,5 +1482,99 @@ theorem esmStable_inv (cfg : Nat → Option Product) (G : Gaps) (s s' : State) (
         have := hout r hm hid
         omega
       · simp [hk]; exact this
+
+/-! ### collateral and principal coming back from auction custody (wind-down of a first-generation auction) -/
+
+theorem creditVault_inv (cfg : Nat → Option Product) (G : Gaps) (s s' : State) (p : Product) (owner : Nat) (cin cout : Int)
+    (hp : cfg p.id = some p) (hinv : InvG cfg G s)
+    (hceil : s.minted p.id + cout ≤ p.debtCeiling)
+    (hfloor : (s.vaults.find? (fun v => v.owner = owner ∧ v.product = p.id)) = none → p.debtFloor ≤ cout)
+    (h : creditVault s p owner cin cout = some s') : InvG cfg G s' := by
+  have ham : am ≠ vm := by decide
+  unfold creditVault at h
+  split at h; · cases h
+  next hg =>
+  simp only [not_or, Int.not_lt] at hg
+  simp only [Option.map_eq_some_iff] at h
+  obtain ⟨s1, hb, rfl⟩ := h
+  have eff := runBank_effect _ s s1 hb
+  have hvm : ∀ d, s1.bal vm d = s.bal vm d + if d = p.denomIn then cin else 0 := by
+    intro d
+    simp only [eff.vmBal, netVm, List.map_cons, List.map_nil, List.sum_cons, List.sum_nil, BankOp.dVm, ham]
+    by_cases hd : d = p.denomIn <;> by_cases c : cin > 0 <;> simp [hd, c] <;> omega
+  have hsp : ∀ d, s1.supply d = s.supply d := by intro d; simp [eff.supply, netSup, BankOp.dSup]
+  simp only [eff.same.vaults]
+  cases hf : s.vaults.find? (fun v => decide (v.owner = owner ∧ v.product = p.id)) with
+  | some v0 =>
+    simp only []
+    have hm : v0 ∈ s.vaults := List.mem_of_find?_eq_some hf
+    have hpr : v0.product = p.id := by
+      have := List.find?_some hf; simp at this; exact this.2
+    have hp0 : cfg v0.product = some p := by rw [hpr]; exact hp
+    have hv0 := hinv.1.2.1 v0 hm
+    refine inv_setVault cfg G s _ p v0 ⟨v0.id, v0.owner, v0.product, v0.amountIn + cin, v0.amountOut + cout, v0.interest, v0.closingFee⟩
+      hinv hm hp0 rfl rfl ⟨by simp; omega, by simp; omega, hv0.2.2.2.2.1, hv0.2.2.2.2.2⟩
+      (by simp [eff.same.vaults]) eff.same.stables eff.same.locked eff.same.nextVault eff.same.nextStable
+      eff.same.length eff.same.unsolicited eff.same.extSupply ?_ ?_ ?_ ?_ ?_
+    · intro d; simp only [hvm d]; by_cases hd : d = p.denomIn <;> simp [hd] <;> omega
+    · intro d; simp only [upd1, hsp]; by_cases hd : d = p.denomOut <;> simp [hd] <;> omega
+    · intro k; simp only [eff.same.coll, upd1_add, hpr]; by_cases hk : k = p.id <;> simp [hk] <;> omega
+    · intro k; simp only [eff.same.minted, upd1_add, hpr]; by_cases hk : k = p.id <;> simp [hk] <;> omega
+    · refine limits_set cfg s _ v0 ⟨v0.id, v0.owner, v0.product, v0.amountIn + cin, v0.amountOut + cout, v0.interest, v0.closingFee⟩ p.id cout
+        hinv.2.2.2.2.2 hm rfl (by simp [eff.same.vaults]) (Or.inl (by simp; omega))
+        (by intro k; simp only [eff.same.minted, upd1_add]) (Or.inr ?_)
+      intro q hq; rw [hp] at hq; cases hq; exact hceil
+  | none =>
+    simp only []
+    have hfl := hfloor (by simpa using hf)
+    refine inv_snocVault cfg G s _ p ⟨s.nextVault + 1, owner, p.id, cin, cout, 0, 0⟩ hinv hp rfl
+      ⟨hg.1, hg.2, by simp, by simp⟩
+      (by simp [eff.same.vaults, eff.same.nextVault]) eff.same.stables eff.same.locked
+      (by simp [eff.same.nextVault]) eff.same.nextStable (by simp [eff.same.length]) eff.same.unsolicited eff.same.extSupply
+      ?_ ?_ ?_ ?_ ?_
+    · intro d; simp only [hvm d]
+    · intro d; simp only [upd1, hsp]; by_cases hd : d = p.denomOut <;> simp [hd]
+    · intro k; simp only [eff.same.coll, upd1_add]
+    · intro k; simp only [eff.same.minted, upd1_add]
+    · refine limits_snoc cfg s _ ⟨s.nextVault + 1, owner, p.id, cin, cout, 0, 0⟩ p.id cout
+        hinv.2.2.2.2.2 (by simp [eff.same.vaults, eff.same.nextVault]) ?_ (by intro k; simp only [eff.same.minted, upd1_add]) ?_
+      · intro q hq; simp only at hq; rw [hp] at hq; cases hq; exact hfl
+      · intro q hq; rw [hp] at hq; cases hq; exact hceil
+
+/-- **Wind-down with less than the principal collected keeps every ledger equation** (same offsets): custody, count, totals
+and supply — provided the vault it re-creates respects the debt floor (a top-up of an existing vault always does). -/
+theorem esmReturn1_inv (cfg : Nat → Option Product) (G : Gaps) (s s' : State) (p : Product) (e : Env) (vaultId owner : Nat)
+    (cur infl : Int) (hp : cfg p.id = some p) (hinv : InvG cfg G s)
+    (hfloor : ∀ l ∈ s.locked, l.vaultId = vaultId →
+      (s.vaults.find? (fun v => v.owner = owner ∧ v.product = p.id)) = none → p.debtFloor ≤ l.amountOut - infl)
+    (h : esmReturn1 s p e vaultId owner cur infl = some s') : InvG cfg G s' := by
+  unfold esmReturn1 at h
+  cases hf : s.locked.find? (fun x => decide (x.vaultId = vaultId)) with
+  | none => simp [hf] at h
+  | some l =>
+    simp only [hf] at h
+    split at h; · cases h
+    next hg =>
+    simp only [not_or, Decidable.not_not, Int.not_lt, Int.not_le] at hg
+    obtain ⟨hm, hid⟩ := find_mem (·.vaultId) s.locked vaultId l hf
+    cases h1 : settle1 s p vaultId with
+    | none => simp [h1] at h
+    | some s1 =>
+      simp only [h1, Option.bind_some] at h
+      have hpc : ∀ x ∈ s.locked, x.product = p.id → cfg x.product = some p := by
+        intro x _ hx; rw [hx]; exact hp
+      have hinv1 := settle1_inv cfg G s s1 p vaultId hinv hpc h1
+      -- what settle1 did to the fields creditVault looks at
+      have hs1 : s1.vaults = s.vaults ∧ s1.minted p.id = s.minted p.id - l.amountOut := by
+        unfold settle1 at h1
+        simp only [hf] at h1
+        split at h1; · cases h1
+        cases h1
+        exact ⟨rfl, by simp [upd1, hg.1]⟩
+      refine creditVault_inv cfg G s1 s' p owner cur (l.amountOut - infl) hp hinv1 ?_ ?_ h
+      · rw [hs1.2]
+        have := hinv.2.2.2.2.2.2 p.id p hp
+        omega
+      · rw [hs1.1]; exact hfloor l hm hid
 
 end Comdex.Vault
